@@ -946,7 +946,9 @@ func TestCheck(t *testing.T) {
 			"is requeued and re-delivered, and is followed by a partial repair (only the failing field, every other change stays) or by further changes). Only delivery orders the real informer + passthrough queue " +
 			"can produce. The final objects are always jointly appliable. G_hist = real controller that processed the history; G_fresh = real controller given only the latest objects. " +
 			"Compared after quiescence: host resolution, endpoint set + disabled flags, server names, 4 feature gates, certificate / client CA / verify options, GetFlowSchema(n).String() and measured limits " +
-			"for 5 schema names, MatchAttributes on 7 probes (flow-control name, log flag, candidate endpoints, limiter). Non-trivial = at least two versions of some cluster; distinct = hash of versions + delivery log.")
+			"for 5 schema names, MatchAttributes on 7 probes (flow-control name, log flag, candidate endpoints, limiter). Health part: 300 (thorough 5 000) ClusterInfo-level histories with a scripted health-check function that switch `disabled` back and forth on the same endpoints while the scripted upstream health changes; " +
+			"per enabled endpoint of the latest object the history gateway must be probing (probe counter advances after TriggerHealthCheck, the fresh gateway is the control) and reach the fresh gateway's readiness. " +
+			"Non-trivial = at least two versions of some cluster; distinct = hash of versions + delivery log.")
 		r.Assume("client connection settings are excluded (the statement excepts them); endpoint health is excluded (all endpoints are unreachable in both gateways)")
 		r.Assume("a pending requeue is re-delivered until it succeeds or a whole round of re-deliveries changes nothing")
 
@@ -1097,6 +1099,7 @@ func TestCheck(t *testing.T) {
 				r.Sample(map[string]interface{}{"history": i, "mode": mode, "versions": h.ups, "deliveries": rn.log, "diverging": diffs})
 			}
 		})
+		healthHistories(r)
 		r.Set("histories_by_feature", feat)
 		r.Set("histories_by_mode", modes)
 		r.Require(r.Counter("versions") >= int64(nh*5), "too few versions")
